@@ -76,3 +76,18 @@ C("c05-verify-raises", "C05", "passlib/handlers/des_crypt.py", "        # check 
 C("c05-limit-ge", "C05", UH, "if cls.truncate_error and len(secret) > cls.truncate_size:", "if cls.truncate_error and len(secret) >= cls.truncate_size:", "C05.d")
 C("c05-trunc-size", "C05", "passlib/handlers/des_crypt.py", "    truncate_size = 8\n", "    truncate_size = 9\n", "C05.e")
 C("c05-cisco-chars", "C05", "passlib/handlers/cisco.py", '        if isinstance(secret, str):\n            secret = secret.encode("utf-8")\n\n        #\n        # check if password too large', '        #\n        # check if password too large', "C05.a", "encode dropped before the length test")
+
+# ---- C08
+C("c08-revert-phpass", "C08", "passlib/handlers/phpass.py", '        if not data:\n            raise uh.exc.MalformedHashError(cls, "missing rounds field")\n', "", "C08.a", "revert of fix be5cc4b")
+C("c08-revert-bcrypt28", "C08", BC, "            hash.startswith(IDENT_2A)\n            and len(hash) > 28\n            and hash[28] not in cls.final_salt_chars", "            hash.startswith(IDENT_2A)\n            and hash[28] not in cls.final_salt_chars", "C08.a", "revert of fix 727e7f0")
+C("c08-revert-scrypt-assert", "C08", "passlib/handlers/scrypt.py", '            if not (\n                nstr.startswith("ln=") and bstr.startswith("r=") and pstr.startswith("p=")\n            ):\n                raise uh.exc.MalformedHashError(cls, "malformed settings field")\n', '            assert nstr.startswith("ln=")\n            assert bstr.startswith("r=")\n            assert pstr.startswith("p=")\n', "C08.a", "revert of fix 2f6fb4d")
+C("c08-revert-phc", "C08", "libpass/inspect/phc/_phc.py", "    try:\n        parsed_params = {\n            name: param.type(params[param.param.name])\n            for name, param in definition_info.parameters.items()\n        }\n    except (KeyError, ValueError):\n        # missing or malformed parameter -- not a hash of this definition\n        return None\n", "    parsed_params = {\n        name: param.type(params[param.param.name])\n        for name, param in definition_info.parameters.items()\n    }\n", "C08.a", "revert of fix 6f94928")
+C("c08-revert-F9", "C08", UH, '    def needs_update(self, hash, **kwds):\n        hash = to_unicode(hash, "ascii", "hash")\n', "    def needs_update(self, hash, **kwds):\n", "C08.b", "revert of fix 5591026")
+C("c08-mc3-index", "C08", UH, "    if len(parts) == 3:\n        rounds, salt, chk = parts\n    elif len(parts) == 2:\n        rounds, salt = parts\n        chk = None\n    else:\n        raise exc.MalformedHashError(handler)\n", "    rounds, salt = parts[0], parts[1]\n    chk = parts[2] if len(parts) == 3 else None\n", "C08.a")
+C("c08-mssql-index", "C08", "passlib/handlers/des_crypt.py", "        salt, chk = hash[:2], hash[2:]\n        return cls(salt=salt, checksum=chk or None)", "        salt, chk = hash[0] + hash[1], hash[2:]\n        return cls(salt=salt, checksum=chk or None)", "C08.a")
+C("c08-keyerror", "C08", "passlib/utils/binary.py", "        except KeyError as err:\n            raise ValueError(f\"invalid character: {err.args[0]!r}\")", "        except IndexError as err:\n            raise ValueError(f\"invalid character: {err.args[0]!r}\")", "C08.c")
+C("c08-identify-exc", "C08", UH, "            cls.from_string(hash)\n            return True\n        except ValueError:\n            return False", "            cls.from_string(hash)\n            return True\n        except TypeError:\n            return False", "C08.c")
+C("c08-chk-size", "C08", UH, "        if cc and len(checksum) != cc:\n            raise exc.ChecksumSizeError(self, raw=raw)\n", "", "C08.d")
+C("c08-partial-compare", "C08", UH, "        return consteq(self._calc_checksum(secret), chk)", "        return consteq(self._calc_checksum(secret)[:8], chk[:8])", "C08.d")
+C("c08-fshp-assert", "C08", "passlib/handlers/sun_md5_crypt.py", "class sun_md5_crypt(", "class sun_md5_crypt(", "C08", "noop placeholder")
+CONTROLS.pop()
